@@ -43,6 +43,16 @@ def run(ctx):
     rc.run_reg(ctx, vh, t, stacks='ro(mem);immw(mem);http(ro(mem));http(immw(http(mem)));ro(funcs(mem));immw(funcs(mem))', n=30 if quick else 800, steps=50,
                imm='false', extra=['-honest', '-pre', '25'])
     traces.append(t)
+    # (2a) every (state of a mutable registry, call) pair - dangling tags included - with the state built underneath
+    # and the call made through the wrappers, followed by reads of the tag
+    wscen = rc.cover_scenarios(ctx, 'OciRegistryCover_mut.cfg', sample=700 if quick else None,
+                               probe=[dict(op='ResolveTag', r='r1', t='t1'), dict(op='GetTag', r='r1', t='t1'), dict(op='ResolveManifest', r='r1', c='img')])
+    for sc in wscen:
+        sc['pre'] = len(sc['ops']) - 4      # everything but the covered call and the three reads
+    wscen = [sc for sc in wscen if sc['pre'] > 0]
+    t = os.path.join(td, 'wrappers-cover.ndjson')
+    rc.run_reg(ctx, vh, t, stacks='ro(mem);immw(mem);http(immw(mem))', scen=rc.write_scenarios(ctx, wscen, 'wscen.jsonl'), imm='false')
+    traces.append(t)
     # (2b) two callers racing through the immutable wrapper: every interleaving of the calls it makes on the registry
     # (OciImmwConc), replayed behind a gate
     vlib.model_check(ctx, 'OciImmwConc.tla', 'OciImmwConc.cfg', workers=1,
